@@ -210,7 +210,10 @@ def battery_cases():
             "dyn Tr<{}> + 'a", "dyn Tr<{}> + 'b", "dyn for<'x> Tr<{}>", "dyn Send + Tr<{}>", "dyn Tr<{}> + Send + Sync", "fn() -> {}", "fn({})", "fn({}, ...)",
             "fn()", "fn() -> ()", "fn() -> ({}, u8)", "fn() -> ({},)", "fn({}) -> ()", "fn({}) -> ({}, {})", "fn(u8)", "fn(u8) -> (u8, u8)", "fn() -> !",
             "impl Tr<{}>", "impl Tr<{}> + Send", "&dyn Tr<{}>", "Box<dyn Tr<{}> + Send>", "Box<dyn Tr<{}>>", "<{} as Tr>::Out", "<{} as Tr2>::Out",
-            "<{} as Tr>::Out2", "Tr<Out = {}>", "[u8; {{ {} }}]"]
+            "<{} as Tr>::Out2", "Tr<Out = {}>", "[u8; {{ {} }}]",
+            # parenthesised generic arguments (`Fn` sugar) as part of a type: inputs, arity, presence and type of the output
+            "dyn Fn({})", "dyn Fn({}) -> bool", "dyn Fn({}) -> {}", "dyn Fn({}) -> ()", "dyn FnMut({})", "dyn Fn({}, u8)", "dyn Fn(u8, {})", "dyn Fn()",
+            "dyn Fn() -> {}", "Box<dyn Fn({})>", "Box<dyn Fn({}) -> bool>", "Box<dyn Fn({}) -> u8>", "impl Fn({}) -> bool", "impl Fn({})", "&dyn Fn({}) -> {}"]
     # impl-group ids: the trait arguments and the self type share their parameters
     P1 = PARAM_PREFIX + "1"
     gids = [f"Kita<{P}> ## {P}", f"Kita<Marker> ## {P}", f"Kita<{P}> ## Marker", "Kita<Marker> ## Marker", f"Kita<{P1}> ## {P}",
